@@ -43,6 +43,10 @@ type c07Case struct {
 	// sequential baseline afterwards (state that is lazily initialised on first use and then only read
 	// is raced on only while it is cold: a baseline computed first would warm it up and hide the race)
 	ColdFirst bool     `json:"cold_first,omitempty"`
+	// GCRounds > 0: after the baseline, GCRounds times: compile every rejected specification, run a garbage
+	// collection, then re-compile accepted ones (state keyed by an object's address must not outlive a
+	// compilation that ended in an error: the collector hands the address to a later compilation)
+	GCRounds int      `json:"gc_rounds,omitempty"`
 	Classes   []string `json:"classes,omitempty"`
 }
 
@@ -106,6 +110,15 @@ func genC07(t *rapid.T) c07Case {
 		}
 		c.Specs = append(c.Specs, s)
 	}
+	if rapid.IntRange(0, 2).Draw(t, "gc") != 0 {
+		c.GCRounds = rapid.IntRange(2, 12).Draw(t, "gcrounds")
+		nrej := rapid.IntRange(1, 3).Draw(t, "nrej")
+		for i := 0; i < nrej; i++ {
+			c.Specs = append(c.Specs, c07Spec{Text: c07GenRejected(t), Kind: "rejected"})
+		}
+		k = len(c.Specs)
+		classes["rejected_specs_and_gc_rounds"] = true
+	}
 	g := rapid.IntRange(k, maxG).Draw(t, "g")
 	for i := 0; i < g; i++ {
 		a := i
@@ -124,6 +137,27 @@ func genC07(t *rapid.T) c07Case {
 	}
 	sortStrings(c.Classes)
 	return c
+}
+
+// c07GenRejected draws a specification with a syntax error: an accepted template with a defect at a drawn
+// place (unbalanced brackets, a missing colon, a stray token), so that the lexer is abandoned in a drawn
+// state (inside brackets, after the import section, at some indentation depth).
+func c07GenRejected(t *rapid.T) string {
+	tm := c09GenTmpl(t, c09TmplOpt{Views: rapid.Bool().Draw(t, "rviews"), Nested: true, Names: rapid.Bool().Draw(t, "rnames")})
+	bad := pick(t, []string{
+		"Rej [a=\"b\":\n    !type T:\n        id <: int\n",
+		"Rej:\n    !type T [~x:\n        id <: int\n",
+		"Rej:\n    Ep [[~x:\n        ...\n",
+		"Rej:\n    !type T:\n        id <: int [a=[\"x\", \"y\"\n    !type U:\n        id <: int\n",
+		"Rej:\n    Ep (a <: int:\n        ...\n",
+		"Rej:\n    !type T\n        id <: int\n",
+		"Rej:\n    /x/{id<:int:\n        GET:\n            ...\n",
+		"Rej:\n  Ep:\n      return ok <: [\n",
+	}, "defect")
+	if rapid.Bool().Draw(t, "defectfirst") {
+		return bad + "\n" + tm.Text
+	}
+	return tm.Text + "\n" + bad
 }
 
 func sortStrings(s []string) {
@@ -260,6 +294,32 @@ func c07Concurrent(c c07Case) *c07ConcRes {
 				return false
 			}
 			cl("sequential_repeat")
+		}
+		// ---- rejected compilations, a collection, accepted compilations
+		for r := 0; r < c.GCRounds; r++ {
+			for i, s := range c.Specs {
+				if s.Kind != "rejected" {
+					continue
+				}
+				if d := base[i].diff(c07Run(s)); d != "" {
+					res.Violation = fmt.Sprintf("sequential compilation of spec %d differs from the first one: %s\n---- %s", i, d, c07Label(s))
+					return false
+				}
+			}
+			runtime.GC()
+			n := 0
+			for j := 0; j < len(c.Specs) && n < 4; j++ {
+				i := (r + j) % len(c.Specs)
+				if c.Specs[i].Kind == "rejected" {
+					continue
+				}
+				n++
+				if d := base[i].diff(c07Run(c.Specs[i])); d != "" {
+					res.Violation = fmt.Sprintf("compilation of spec %d after rejected compilations and a garbage collection (round %d) differs from the first one: %s\n---- %s\n---- rejected before it:\n%s", i, r, d, c07Label(c.Specs[i]), c07Label(c.Specs[len(c.Specs)-1]))
+					return false
+				}
+				cl("accepted_after_rejected_and_gc")
+			}
 		}
 
 		return true
